@@ -707,6 +707,9 @@ def _piece_one(rec, model, ref, cfg, pset, ri, lab, row_db, k, kind, point, e, n
                 rec.retire = True
             return
         rec.case(ck, (ck, round(u_num, 9), round(d_num, 9)), outcome=f"{cfg['variant']}|piece-x|{'og' if og else 'in'}")
+        if name == 'gamma|og=none' and pset == 'D' and ri == 0 and k == 0 and e == 0.0 and x == 1.0:
+            rec.sample(dict(case=case, utility_numeric=u_num, utility_symbolic_engine=u_sym, utility_reference=u_ref,
+                            derivative_numeric=d_num, derivative_engine=d_sym, derivative_reference=d_ref))
         if not close(u_num, u_sym, PIECE_REL, PIECE_ABS):
             viol('numeric-utility!=symbolic-utility', f'x={x}: utility_one_alternative {u_num!r} vs engine value of the expression {u_sym!r}', u_sym, u_num)
         if not close(u_num, u_ref, PIECE_REL, PIECE_ABS):
